@@ -42,7 +42,9 @@ def child_main(argv):
     from wpull.warc.recorder import WARCRecorder, WARCRecorderParams
     from wpull.warc.format import WARCRecord
     workdir, compress, earlier, size, scenario = argv[0], argv[1] == '1', int(argv[2]), int(argv[3]), argv[4]
-    prefix = os.path.join(workdir, 'arch')
+    # 'plain:bracket' = scenario 'plain' with an archive prefix that contains glob metacharacters (--warc-file 'arch[1]')
+    scenario, _, flavour = scenario.partition(':')
+    prefix = os.path.join(workdir, 'arch[1]' if flavour == 'bracket' else 'arch')
     result_path = os.path.join(workdir, 'result.json')
     if scenario == 'restart':
         # a new run on the same prefix: must refuse while a journal exists
@@ -179,12 +181,21 @@ def child_main(argv):
     except BaseException as e:
         out = {'raised': type(e).__name__, 'text': str(e)[:200], 'is_oserror': isinstance(e, OSError)}
     os.environ['FI_ARMED'] = '0'
+    if os.environ.get('VERIF_THEN_APPEND'):
+        # the run goes on: one more record is appended by the same recorder (no fault this time)
+        try:
+            recorder.write_record(make(1001, 33))
+            out['second'] = None
+        except BaseException as e:
+            out['second'] = type(e).__name__
     with open(result_path, 'w') as f:
         json.dump(out, f)
 
 
 # ------------------------------------------------------------------------------------------ parent
-def run_child(workdir, cfg, at, mode, errno_, log=None, scenario=None, at2=None):
+def run_child(workdir, cfg, at, mode, errno_, log=None, scenario=None, at2=None, then_append=False):
+    if scenario == 'restart' and ':' in cfg.get('scenario', ''):
+        scenario = 'restart:' + cfg['scenario'].split(':', 1)[1]
     env = par.child_env({
         'LD_PRELOAD': FI_SO, 'FI_PATH': os.path.join(workdir, 'arch'), 'FI_AT': str(at), 'FI_MODE': mode,
         'FI_ERRNO': str(errno_ or 28), 'FI_ARMED': '0'})
@@ -192,6 +203,8 @@ def run_child(workdir, cfg, at, mode, errno_, log=None, scenario=None, at2=None)
         env['FI_LOG'] = log
     if at2:
         env['FI_AT2'] = str(at2)
+    if then_append:
+        env['VERIF_THEN_APPEND'] = '1'
     proc = subprocess.run(
         [par.PY, '-m', 'checks.c06_warcfault', '--child', workdir, '1' if cfg['compress'] else '0',
          str(cfg['earlier']), str(cfg['size']), scenario or cfg.get('scenario', 'plain')],
@@ -231,9 +244,9 @@ def case_worker(job):
     cfg, k, mode, errno_ = job['cfg'], job['k'], job['mode'], job['errno']
     op = job['op']
     workdir = tempfile.mkdtemp(prefix='vc06')
-    replay = {'cfg': cfg, 'k': k, 'mode': mode, 'errno': errno_}
+    replay = {'cfg': cfg, 'k': k, 'mode': mode, 'errno': errno_, 'k2': job.get('k2')}
     try:
-        proc = run_child(workdir, cfg, k, mode, errno_, at2=job.get('k2'))
+        proc = run_child(workdir, cfg, k, mode, errno_, at2=job.get('k2'), then_append=job.get('then_append'))
         part.evaluations += 1
         part.count('cases_' + mode)
         opclass = '{}:{}'.format(op['kind'], 'journal' if op['file'].endswith('-wpullinc') else 'archive')
@@ -270,8 +283,14 @@ def case_worker(job):
             # journal gone) or the journal must still describe how to restore it.
             part.count('double_fault_cases')
             detail['k2'] = job['k2']
+            if job.get('then_append'):
+                part.count('double_fault_cases_followed_by_another_append')
+                replay['then_append'] = True
             if proc.returncode != 0 or result is None:
                 part.violation('process-died-on-io-error/double-fault', dict(detail, rc=proc.returncode), replay)
+            elif job.get('then_append') and not journals and archive is not None and archive[:len(snapshot)] == snapshot and \
+                    valid_archive(archive, cfg['compress']) is True:
+                part.count('double_fault_then_append_archive_valid')
             elif archive == snapshot and not journals:
                 part.count('double_fault_restored')
             elif result['raised'] is None and valid_archive(archive, cfg['compress']) is True and not journals:
@@ -290,8 +309,8 @@ def case_worker(job):
                     part.count('double_fault_journal_still_restores')
                 else:
                     second = job.get('op2', {})
-                    part.violation('double-fault-leaves-damaged-archive-without-usable-journal/{}+{}:{}'.format(
-                        opclass, second.get('kind'), 'journal' if str(second.get('file', '')).endswith('-wpullinc') else 'archive'),
+                    part.violation('double-fault-{}leaves-damaged-archive-without-usable-journal/{}+{}:{}'.format(
+                        'then-next-append-' if job.get('then_append') else '', opclass, second.get('kind'), 'journal' if str(second.get('file', '')).endswith('-wpullinc') else 'archive'),
                         detail, replay)
             return part.dump()
         if mode in ('err', 'sticky', 'short'):
@@ -504,7 +523,8 @@ def main():
             rp = json.load(f)['replay']
         ops, ok, out = count_ops(rp['cfg'])
         op = ops[rp['k'] - 1] if 0 < rp['k'] <= len(ops) else {'kind': '?', 'file': '?', 'size': 0}
-        check.merge(case_worker({'cfg': rp['cfg'], 'k': rp['k'], 'mode': rp['mode'], 'errno': rp['errno'], 'op': op}))
+        check.merge(case_worker({'cfg': rp['cfg'], 'k': rp['k'], 'mode': rp['mode'], 'errno': rp['errno'], 'op': op, 'k2': rp.get('k2'),
+                                 'then_append': rp.get('then_append')}))
         check.finish()
     cfgs = []
     sizes = [60] if not check.thorough else [60, 30000, 200000]
@@ -521,6 +541,9 @@ def main():
     # size-based rollover: the archive (and its journal) carry a sequence number in their names
     for compress in (False, True):
         cfgs.append({'compress': compress, 'earlier': 1, 'size': 60, 'scenario': 'rollover'})
+    # an archive prefix with glob metacharacters (the start-up check looks for journals with a glob pattern)
+    for compress in (False, True):
+        cfgs.append({'compress': compress, 'earlier': 1, 'size': 60, 'scenario': 'plain:bracket'})
     # the same command run again without --warc-append (the old archive is replaced), and the NAME-meta archive that
     # close() writes for size-split archives
     for compress in (False, True):
@@ -552,16 +575,21 @@ def main():
         for op in ops:
             if op['file'].endswith('-wpullinc') or op['kind'] == 'unlink':
                 continue
-            workdir = tempfile.mkdtemp(prefix='vc06')
-            try:
-                log = os.path.join(workdir, 'ops.log')
-                run_child(workdir, cfg, op['n'], 'err', 28, log=log)
-                after = [o for o in read_ops(log) if o['n'] > op['n']]
-            finally:
-                shutil.rmtree(workdir, ignore_errors=True)
-            for o2 in after:
-                jobs.append({'cfg': cfg, 'k': op['n'], 'mode': 'err', 'errno': 28, 'op': op, 'k2': o2['n'], 'op2': o2})
-                check.count('fault_sequences_enumerated')
+            # first fault: the operation fails outright ('err'), or - for writes - stores half of its bytes first ('short': the
+            # archive really is damaged when the rollback then fails too)
+            for first_mode in (('err', 'short') if op['kind'] in ('write', 'writev', 'pwrite') else ('err',)):
+                workdir = tempfile.mkdtemp(prefix='vc06')
+                try:
+                    log = os.path.join(workdir, 'ops.log')
+                    run_child(workdir, cfg, op['n'], first_mode, 28, log=log)
+                    after = [o for o in read_ops(log) if o['n'] > op['n']]
+                finally:
+                    shutil.rmtree(workdir, ignore_errors=True)
+                for o2 in after:
+                    for then_append in (False, True):
+                        jobs.append({'cfg': cfg, 'k': op['n'], 'mode': first_mode, 'errno': 28, 'op': op, 'k2': o2['n'], 'op2': o2,
+                                     'then_append': then_append})
+                        check.count('fault_sequences_enumerated')
     check.sample({'cfg': cfgs[0], 'operations': op_lists.get(common.jhash(cfgs[0]))})
     check.sample({'cfg': cfgs[-1], 'operations': op_lists.get(common.jhash(cfgs[-1]))})
     res = par.run_jobs('checks.c06_warcfault:case_worker', jobs, check.jobs, timeout=300)
